@@ -9,6 +9,7 @@ import (
 	"errors"
 	"fmt"
 	"io"
+	"runtime"
 	"sync"
 
 	cose "github.com/veraison/go-cose"
@@ -189,6 +190,45 @@ func runC10(c *Collector, r *Rng, thorough bool) {
 				}
 				if full[g].Verify(k.verifier(), parents[g], []byte("ext")) != nil || cose.VerifyCountersign0(k.verifier(), parents[g], []byte("ext"), abbr[g]) != nil {
 					c.Fail("C10/concurrent-countersign-wrong-parent", "a countersignature made while other parents were being countersigned does not verify against its own parent", map[string]any{"alg": k.alg.String()})
+				}
+			}
+		}
+	}
+	// the same with a signer that is slow to read its input: the bytes it finally reads must still be
+	// the structure of its own parent (a to-be-signed buffer must not be shared between calls)
+	{
+		rounds := 6
+		if thorough {
+			rounds = 100
+		}
+		for rd := 0; rd < rounds; rd++ {
+			const G = 12
+			parents := make([]*cose.Sign1Message, G)
+			seen := make([][]byte, 2*G)
+			var wg sync.WaitGroup
+			for g := 0; g < G; g++ {
+				parents[g] = &cose.Sign1Message{Headers: cose.Headers{Protected: cose.ProtectedHeader{cose.HeaderLabelAlgorithm: cose.AlgorithmES256, int64(4): []byte(fmt.Sprintf("kid-%d-%d", rd, g))}}, Payload: []byte(fmt.Sprintf("payload %d/%d ....................", rd, g)), Signature: []byte{byte(g), 9, 9}}
+				wg.Add(1)
+				go func(g int) {
+					defer wg.Done()
+					sg := &slowSigner{alg: -7}
+					cs := cose.NewCountersignature()
+					cs.Headers.Protected.SetAlgorithm(-7)
+					cs.Sign(nil, sg, parents[g], []byte("e"))
+					seen[2*g] = sg.seen
+					sg0 := &slowSigner{alg: -7}
+					cose.Countersign0(nil, sg0, parents[g], []byte("e"))
+					seen[2*g+1] = sg0.seen
+				}(g)
+			}
+			wg.Wait()
+			c.Eval("concurrent-countersign-slow-signer", fmt.Sprint(rd), true)
+			for g := 0; g < G; g++ {
+				wantF, _ := refCountersign(false, parents[g], []byte{0x43, 0xa1, 0x01, 0x26}, []byte("e"))
+				wantA, _ := refCountersign(true, parents[g], []byte{0x40}, []byte("e"))
+				if !bytes.Equal(seen[2*g], wantF) || !bytes.Equal(seen[2*g+1], wantA) {
+					c.Fail("C10/concurrent-tbs-corrupted", fmt.Sprintf("a countersigner running concurrently with others read %x / %x, its own structure is %x / %x", seen[2*g], seen[2*g+1], wantF, wantA), map[string]any{"round": rd, "goroutine": g})
+					break
 				}
 			}
 		}
@@ -877,4 +917,19 @@ func c20NoEmptySig(c *Collector, out []byte, tagged bool, rep map[string]any) {
 	if len(body.Kids) == 4 && (body.Kids[3].Maj != 2 || len(body.Kids[3].Str) == 0) {
 		c.Fail("C20/empty-signature-emitted", fmt.Sprintf("encoder emitted a message with an empty signature: %x", out), rep)
 	}
+}
+
+// slowSigner yields the processor before it reads the content it was handed.
+type slowSigner struct {
+	alg  cose.Algorithm
+	seen []byte
+}
+
+func (s *slowSigner) Algorithm() cose.Algorithm { return s.alg }
+func (s *slowSigner) Sign(_ io.Reader, content []byte) ([]byte, error) {
+	for i := 0; i < 50; i++ {
+		runtime.Gosched()
+	}
+	s.seen = append([]byte{}, content...)
+	return []byte{1, 2, 3}, nil
 }
